@@ -258,22 +258,8 @@ def run(P, R, tier):
 
     # task keys: a `dask_key_name=` given to a delayed read names the task; dask runs ONE task per name, so every argument that changes what the task
     # returns must be part of the name -- the geometry= choice in particular (S10)
-    for g_ in [prd] + list(prd.nested.values()):
-        for c_ in astq.own_calls(g_):
-            kn = astq.arg_of(c_, kw='dask_key_name')
-            if kn is None:
-                continue
-            named = astq.sources(g_, kn)
-            for sub_ in ast.walk(astq.expand(g_, kn)):
-                if isinstance(sub_, ast.Name):
-                    named.add(sub_.id)
-            others = set()
-            for a_ in list(c_.args) + [k_.value for k_ in c_.keywords if k_.arg not in ('dask_key_name', 'filesystem', 'pure', 'name')]:
-                others |= {n_ for n_ in astq.names_in(a_)}
-            missing = sorted(n_ for n_ in others if n_ not in named and n_ not in ('filesystem', 'np', 'pd'))
-            R.check(not missing, 'C20.d', g_, c_, 'the task name covers every argument of the task',
-                    f'`dask_key_name={norm(kn)}` does not depend on {missing}: two reads that differ only in {missing} get identically named tasks, dask runs one of them for both, '
-                    'and the second frame\'s partitions use the other read\'s active geometry while its meta advertises its own', construct='task name covers the task arguments')
+    from rules import common as _cmn
+    _cmn.task_names(P, R, 'C20.d', [prd] + list(prd.nested.values()), 'the second frame\'s partitions use the other read\'s active geometry while its meta advertises its own')
     from rules import C12
     sub = type(R)(R.prop, R.tier)
     try:
